@@ -42,6 +42,7 @@ def default_params(tier):
     p = progmod.default_params(tier, collide=True, forbid=["provide", "inject_default", "negative"])
     p["budget_mult"] = 5000
     p["loop_ladder"] = 8
+    p["reentrant"] = 10   # re-entrant fill family (prog.generate_reentrant)
     p["py_entry"] = 8
     p["max_prefix"] = 2
     p["noise_reads"] = True
